@@ -92,11 +92,20 @@ func (w *World) oracles(n *Node, op string) {
 	trxHolders := map[[32]byte]int{}
 	for h, v := range live {
 		trxHolders[v.Transaction.Hash]++
-		if _, dup := cp[h]; dup {
-			w.c.Violate("C03", "vertex-hash-in-dag-and-storage", fmt.Sprintf("vertex %x is both live and checkpointed on node %d", h[:4], n.id), info)
+		if sv, dup := cp[h]; dup {
+			if vertexEqual(v, sv) {
+				// the archive copy of a vertex that is still live (a truncation that was cut short after
+				// archiving it): one vertex kept in two places, not two vertices
+				w.c.Count("oracle.c03.archived-copy-of-live-vertex")
+			} else {
+				w.c.Violate("C03", "vertex-hash-in-dag-and-storage", fmt.Sprintf("two different vertices share the hash %x on node %d: one live, one checkpointed", h[:4], n.id), info)
+			}
 		}
 	}
-	for _, v := range cp {
+	for h, v := range cp {
+		if lv := live[h]; lv != nil && vertexEqual(lv, v) {
+			continue // counted above
+		}
 		trxHolders[v.Transaction.Hash]++
 	}
 	for t, k := range trxHolders {
